@@ -1020,6 +1020,63 @@ func init() {
 							}
 							return true
 						}
+						// the relations computed by an ordering helper: `if _, _, greater := numberOrder(input, bound, x, y);
+						// !greater { fail }` / `!(less || equal)` — every result of the helper is a comparison of its
+						// operands, so each flag is false for NaN exactly as the comparison written in place
+						if as, ok := is.Init.(*ast.AssignStmt); ok && len(as.Rhs) == 1 {
+							if hc, ok := ast.Unparen(as.Rhs[0]).(*ast.CallExpr); ok {
+								h := originOf(Callee(info, hc))
+								nf := 0
+								for _, a := range hc.Args {
+									if isF64(info, a) {
+										nf++
+									}
+								}
+								if h != nil && h.Pkg() == u.Obj.Pkg() && nf >= 2 && c.allResultsAreComparisons(h) {
+									flags := map[types.Object]bool{}
+									for _, l := range as.Lhs {
+										if o := identObj(info, l); o != nil {
+											flags[o] = true
+										}
+									}
+									onlyFlags, nflag := true, 0
+									var walk func(e ast.Expr)
+									walk = func(e ast.Expr) {
+										e = ast.Unparen(e)
+										switch x := e.(type) {
+										case *ast.BinaryExpr:
+											if x.Op == token.LOR || x.Op == token.LAND {
+												walk(x.X)
+												walk(x.Y)
+												return
+											}
+											onlyFlags = false
+										case *ast.Ident:
+											if flags[info.Uses[x]] {
+												nflag++
+											} else {
+												onlyFlags = false
+											}
+										default:
+											onlyFlags = false
+										}
+									}
+									walk(cond)
+									if onlyFlags && nflag > 0 {
+										construct := ord.next("bound " + types.ExprString(is.Cond))
+										switch {
+										case negated:
+											obs = append(obs, mkOb(c, rid, u, construct, is, Proved, "fails unless a relation computed by "+h.Name()+" holds (each is a comparison, false for NaN)", true))
+										case hasNaNTest:
+											obs = append(obs, mkOb(c, rid, u, construct, is, Proved, "NaN is tested for explicitly in this validator", true))
+										default:
+											obs = append(obs, mkOb(c, rid, u, construct, is, Violated, "the validator fails when `"+types.ExprString(is.Cond)+"` holds and passes otherwise: NaN makes every comparison false, so it passes this bound and its opposite", true))
+										}
+										return true
+									}
+								}
+							}
+						}
 						be, ok := cond.(*ast.BinaryExpr)
 						if !ok {
 							return true
@@ -1241,4 +1298,34 @@ func (c *Ctx) funcParamValues(u FuncUnit, po types.Object, depth int) ([]funcVal
 		}
 	}
 	return out, true
+}
+
+// allResultsAreComparisons: every return of the declared function h gives, in every result position, a
+// comparison (< <= > >= == !=) of two operands — a helper that only computes relations.
+func (c *Ctx) allResultsAreComparisons(h *types.Func) bool {
+	hd := c.declOf[h]
+	if hd == nil || hd.Body == nil {
+		return false
+	}
+	rets := returnsOf(hd.Body)
+	if len(rets) == 0 {
+		return false
+	}
+	for _, rs := range rets {
+		if len(rs.Results) == 0 {
+			return false
+		}
+		for _, r := range rs.Results {
+			be, ok := ast.Unparen(r).(*ast.BinaryExpr)
+			if !ok {
+				return false
+			}
+			switch be.Op {
+			case token.LSS, token.LEQ, token.GTR, token.GEQ, token.EQL:
+			default:
+				return false
+			}
+		}
+	}
+	return true
 }
